@@ -93,7 +93,7 @@ def _parse_printed(out, res):
 
 
 def run_tlc(module, cfg, workdir, env=None, workers=None, simulate=None, depth=None, coverage=True,
-            timeout=3600, extra=None, deadlock=False, allow_violation=False, jvm=None, seed_=None, tag=None, library=None, consts=None):
+            timeout=3600, extra=None, deadlock=False, allow_violation=False, jvm=None, seed_=None, tag=None, library=None, consts=None, heap=None):
     """Run TLC on SPEC/<module>.tla with SPEC/<cfg>. Returns TLCResult.
 
     Raises MachineryError when TLC itself fails (parse error, crash, evaluation error, timeout)."""
@@ -117,7 +117,8 @@ def run_tlc(module, cfg, workdir, env=None, workers=None, simulate=None, depth=N
     meta = os.path.join(workdir, "meta-" + tag)
     if os.path.isdir(meta):
         shutil.rmtree(meta)
-    cmd = ["java", "-XX:+UseParallelGC", "-Xss64m"]
+    # an explicit heap: the JVM default (a quarter of the RAM per process) lets a dozen concurrent TLC processes exhaust the machine
+    cmd = ["java", "-XX:+UseParallelGC", "-Xss64m", "-Xmx" + (heap or ("3g" if (workers or NCPU) <= 2 else "8g"))]
     if jvm:
         cmd += jvm
     if library:
